@@ -150,3 +150,52 @@ mut("C06", "r5-default-returns", "modules/worker.go",
     "\t\tcase errors.Is(err, ErrRestartNow):\n\t\t\t// Worker requested a restart - silently continue with loop.\n", "\t\tcase errors.Is(err, ErrRestartNow):\n\t\t\t// Worker requested a restart - silently continue with loop.\n\n\t\tcase failCnt > 10:\n\t\t\treturn\n", "C06-R5|loop exit")
 mut("C06", "r5-unwrap-panic", "modules/error.go",
     "// Error returns the string representation of the error.", "// Unwrap returns the wrapped error.\nfunc (me *ModuleError) Unwrap() error {\n\tif e, ok := me.PanicValue.(error); ok {\n\t\treturn e\n\t}\n\treturn nil\n}\n\n// Error returns the string representation of the error.", "C06-R5|panic value not exposed")
+
+# ---- C07 -------------------------------------------------------------------
+mut("C07", "r1-no-executing-check", "modules/tasks.go",
+    "\t// check if task is already executing\n\tif t.executing {\n\t\tt.lock.Unlock()\n\t\treturn\n\t}\n", "", "C07-R1|guard !t.executing", canary=True)
+mut("C07", "r1-launch-from-schedule", "modules/tasks.go",
+    "\t\t\t\tscheduleLock.Unlock()\n\n\t\t\t\tt.runWithLocking()", "\t\t\t\tscheduleLock.Unlock()\n\n\t\t\t\tgo t.executeWithLocking()", "C07-R1|launch executeWithLocking")
+mut("C07", "r1-reset-in-cancel", "modules/tasks.go",
+    "\tt.canceled = true\n\tif t.cancelCtx != nil {", "\tt.canceled = true\n\tt.executing = false\n\tif t.cancelCtx != nil {", "C07-R1|Cancel / store Task.executing=false")
+mut("C07", "r2-cancel-no-flag", "modules/tasks.go",
+    "\tt.canceled = true\n\tif t.cancelCtx != nil {", "\tif t.cancelCtx != nil {", "C07-R2|Cancel")
+mut("C07", "r2-uncancel", "modules/tasks.go",
+    "\tt.executeAt = executeAt\n\n\tif executeAt.IsZero() {", "\tt.executeAt = executeAt\n\tt.canceled = false\n\n\tif executeAt.IsZero() {", "C07-R2|Schedule")
+mut("C07", "r3-prioritized-front", "modules/tasks.go",
+    "\t\tt.prioritizedQueueElement = prioritizedTaskQueue.PushBack(t)", "\t\tt.prioritizedQueueElement = prioritizedTaskQueue.PushFront(t)", "C07-R3|QueuePrioritized")
+mut("C07", "r3-handler-normal-first", "modules/tasks.go",
+    "\t\t\te := prioritizedTaskQueue.Front()\n\t\t\tif e != nil {\n\t\t\t\tprioritizedTaskQueue.Remove(e)\n\t\t\t} else {\n\t\t\t\te = taskQueue.Front()\n\t\t\t\tif e != nil {\n\t\t\t\t\ttaskQueue.Remove(e)\n\t\t\t\t}\n\t\t\t}",
+    "\t\t\te := taskQueue.Front()\n\t\t\tif e != nil {\n\t\t\t\ttaskQueue.Remove(e)\n\t\t\t} else {\n\t\t\t\te = prioritizedTaskQueue.Front()\n\t\t\t\tif e != nil {\n\t\t\t\t\tprioritizedTaskQueue.Remove(e)\n\t\t\t\t}\n\t\t\t}", "C07-R3|normal queue pop")
+mut("C07", "r3-queue-double", "modules/tasks.go",
+    "\tif t.queueElement == nil {\n\t\tqueuesLock.Lock()\n\t\tt.queueElement = taskQueue.PushBack(t)\n\t\tqueuesLock.Unlock()\n\t}", "\tqueuesLock.Lock()\n\tt.queueElement = taskQueue.PushBack(t)\n\tqueuesLock.Unlock()", "C07-R3|guard queueElement==nil")
+mut("C07", "r3-no-wait", "modules/tasks.go",
+    "\t\t\t// wait for execution slot\n\t\t\tqueueWg.Wait()\n", "", "C07-R3|wait")
+mut("C07", "r4-no-done", "modules/tasks.go",
+    "\t\tselect {\n\t\tcase <-t.ctx.Done():\n\t\tcase <-time.After(maxExecutionWait):\n\t\t}\n\t\t// complete queue worker (early) to allow next worker\n\t\tqueueWg.Done()", "\t\tselect {\n\t\tcase <-t.ctx.Done():\n\t\t\t// complete queue worker (early) to allow next worker\n\t\t\tqueueWg.Done()\n\t\tcase <-time.After(maxExecutionWait):\n\t\t}", "C07-R4|Done on every path")
+mut("C07", "r4-done-early", "modules/tasks.go",
+    "\t\tselect {\n\t\tcase <-t.ctx.Done():\n\t\tcase <-time.After(maxExecutionWait):\n\t\t}\n\t\t// complete queue worker (early) to allow next worker\n\t\tqueueWg.Done()", "\t\t// complete queue worker (early) to allow next worker\n\t\tqueueWg.Done()", "C07-R4|Done after task end")
+mut("C07", "r5-run-without-timer", "modules/tasks.go",
+    "\t\tcase <-notifyTaskScheduler:\n\t\t\tcontinue\n\t\tcase <-waitUntilNextScheduledTask():", "\t\tcase <-waitUntilNextScheduledTask():\n\t\t\tcontinue\n\t\tcase <-notifyTaskScheduler:", "C07-R5|guard schedule timer fired")
+mut("C07", "r5-insert-after-later", "modules/tasks.go",
+    "\t\tif t.executeAt.Before(eVal.executeAt) {", "\t\tif eVal.executeAt.Before(t.executeAt) {", "C07-R5|guard t.executeAt.Before")
+mut("C07", "r5-conditional-notify", "modules/tasks.go",
+    "\tdefer func() {\n\t\tselect {\n\t\tcase notifyTaskScheduler <- struct{}{}:\n\t\tdefault:\n\t\t}\n\t}()\n\n\t// insert task into schedule", "\tdefer func() {\n\t\tif taskSchedule.Front() != t.scheduleListElement {\n\t\t\treturn\n\t\t}\n\t\tselect {\n\t\tcase notifyTaskScheduler <- struct{}{}:\n\t\tdefault:\n\t\t}\n\t}()\n\n\t// insert task into schedule", "C07-R5|handler woken")
+
+# ---- C15 -------------------------------------------------------------------
+mut("C15", "r1-leq-limit", "modules/microtasks.go",
+    "if atomic.LoadInt32(microTasks) < atomic.LoadInt32(microTasksThreshhold) {", "if atomic.LoadInt32(microTasks) <= atomic.LoadInt32(microTasksThreshhold) {", "C15-R1|guard running < limit", canary=True)
+mut("C15", "r1-no-count", "modules/microtasks.go",
+    "\t\t\tif clearanceSignal != nil {\n\t\t\t\tclose(clearanceSignal)\n\t\t\t\tatomic.AddInt32(microTasks, 1)\n\t\t\t}\n\t\t\tclearanceSignal = nil\n\t\t} else {", "\t\t\tif clearanceSignal != nil {\n\t\t\t\tclose(clearanceSignal)\n\t\t\t}\n\t\t\tclearanceSignal = nil\n\t\t} else {", "C15-R1|counted")
+mut("C15", "r2-low-timeout-inc", "modules/microtasks.go",
+    "\t\t\t// Don't keep waiting for signal forever.\n\t\t\t// Don't increase microtask counter, as the signal was already submitted\n\t\t\t// and the counter will be increased by the scheduler.\n\t\t}\n\t}\n}\n\nfunc getLowPriorityClearance", "\t\t\tatomic.AddInt32(microTasks, 1)\n\t\t}\n\t}\n}\n\nfunc getLowPriorityClearance", "C15-R2|getMediumPriorityClearance")
+mut("C15", "r2-high-no-inc", "modules/microtasks.go",
+    "\t// Increase global counter here, as high priority tasks do not wait for clearance.\n\tatomic.AddInt32(microTasks, 1)\n\treturn m.runMicroTask(name, fn)", "\treturn m.runMicroTask(name, fn)", "C15-R2|RunHighPriorityMicroTask")
+mut("C15", "r2-medium-timeout-no-inc", "modules/microtasks.go",
+    "\t\tcase mediumPriorityClearance <- signal:\n\t\tcase <-time.After(maxDelay):\n\t\t\t// Start without clearance and increase microtask counter.\n\t\t\tatomic.AddInt32(microTasks, 1)\n\t\t\treturn", "\t\tcase mediumPriorityClearance <- signal:\n\t\tcase <-time.After(maxDelay):\n\t\t\t// Start without clearance.\n\t\t\treturn", "C15-R2|getMediumPriorityClearance")
+mut("C15", "r3-done-not-once", "modules/microtasks.go",
+    "\t\tif doneCalled.SetToIf(false, true) {\n\t\t\tm.concludeMicroTask()\n\t\t}", "\t\tdoneCalled.Set()\n\t\tm.concludeMicroTask()", "C15-R3|signalMicroTask$1")
+mut("C15", "r3-check-before-dec", "modules/microtasks.go",
+    "\tatomic.AddInt32(m.microTaskCnt, -1)\n\tm.checkIfStopComplete()\n", "\tm.checkIfStopComplete()\n\tatomic.AddInt32(m.microTaskCnt, -1)\n", "C15-R3|stop completion re-evaluated")
+mut("C15", "r4-min-one", "modules/microtasks.go",
+    "\tif n < 2 {\n\t\tatomic.StoreInt32(microTasksThreshhold, 2)", "\tif n < 1 {\n\t\tatomic.StoreInt32(microTasksThreshhold, 1)", "C15-R4|limit table")
